@@ -228,6 +228,54 @@ def c03(tier, seed):
 def c04(tier, seed):
     return tree_jobs(tier, "walk")
 
+
+def hashtbl_jobs(tier):
+    H = ["seqmc/hashtbl.c"]
+    X = tier == "thorough"
+    jobs = []
+    for rng in ([1, 2, 3, 5, 0] if X else [1, 2, 3, 0]):
+        jobs.append(Job("hashtbl-r%d" % rng, H, [rng, 6 if X else 5, 2], wraps=VA_WRAPS, weight=10))
+    jobs.append(Job("hashtbl-r2-putint", H, [2, 4, 3], wraps=VA_WRAPS, weight=10))
+    return jobs
+
+
+@prop("C05", "model_checking",
+      "BFS closure of every qhashtbl state reachable by put / putstr / putint / remove (present and absent) / clear over 5 "
+      "string keys incl. the empty key (6 in thorough) and 2-3 value versions (bytes with embedded NUL, string, integer), for "
+      "ranges 1, 2, 3 (5) and the default 1000; canonical state = ordered chain of every slot. After every transition: get "
+      "(both newmem), getstr, getint, size, errno, and complete getnext walks in both newmem modes against a map model",
+      ["map model in engines/seqmc/hashtbl.c; slot prediction by an independent MurmurHash3"],
+      [need("states", 500), need("unlink_head"), need("unlink_middle"), need("unlink_tail"), need("max_chain", 3), forbid("replay_divergence")],
+      classes=["map:*", "walk:*"])
+def c05(tier, seed):
+    return hashtbl_jobs(tier)
+
+
+def listtbl_jobs(tier):
+    H = ["seqmc/listtbl.c"]
+    X = tier == "thorough"
+    jobs = []
+    for opt in range(16):
+        jobs.append(Job("listtbl-opt%02d" % opt, H, [opt, 5 if X else 3, 4 if X else 3], wraps=VA_WRAPS, weight=30 if X else 4))
+    for opt in (0, 15) if not X else (0, 5, 10, 15):
+        jobs.append(Job("listtbl-values-opt%02d" % opt, H, ["values", opt], wraps=VA_WRAPS, weight=6))
+    return jobs
+
+
+@prop("C08", "model_checking",
+      "for each of the 16 combinations of UNIQUE/CASEINSENSITIVE/INSERTTOP/LOOKUPFORWARD: BFS closure of every list-table "
+      "state of length <= 3 (thorough 5) over names {a, A, b} and 3-4 value versions, ops putstr/putint/put, remove(name incl. "
+      "an absent one), removeobj of the i-th entry met during a walk (walk continues), sort, clear; after every transition: "
+      "get (both newmem), getstr, getint, getmulti(+freemulti), name-filtered and unfiltered getnext walks for every name "
+      "spelling, size, link structure, and save(encode)/load into fresh tables (same options, and appending); plus the "
+      "value dimension of save/load: every string of length 0..3 over 16 significant bytes, alone and beside a second entry",
+      ["ordered-multimap model in engines/seqmc/listtbl.c", "load is checked against 'put every saved line in file order into a table with the loader's options'; "
+       "for an appending loader that is the saved order"],
+      [need("states", 1000), need("saveload_roundtrips", 1000), forbid("replay_divergence")],
+      classes=["multimap:*", "saveload:*", "list:*"])
+def c08(tier, seed):
+    return listtbl_jobs(tier)
+
 NOT_YET = {}
 ENGINES = [
     {"name": "inputmc", "path": "engines/inputmc", "serves_properties": ["C16", "C17", "C18", "C19", "C20"],
